@@ -1,7 +1,13 @@
 (* C15.v — Set algebra equals intersection, union, difference and symmetric difference
    Statements only: every theorem is closed by [exact] of a lemma proved elsewhere, and its
-   axioms are printed.  Generated once by tools/mkprop.py from the proved lemmas' statements. *)
-From Verif Require Import Base Seq Coll SetProofs.
+   axioms are printed.  Generated once by tools/mkprop.py from the proved lemmas' statements. 
+   Round 2 (polish): an [Example] of non-vacuity beside every theorem (data in SetProofs2.v / SetTransfer.v /
+   SetPool.v); C15_default_collator_*: the four laws for the REAL default ranking on the universe type U M without
+   a total_preorder hypothesis; C15_raw_default_*: the same for Pool.rk_default on raw values under Forall inUd;
+   C15_pool_* etc.: the class functions of the pool machine produce a new object, leave the operands (and every
+   other object) unchanged, and later changes to one side do not reach the other. *)
+From Verif Require Import Base Sorter Value Seq Coll SetProofs CollateRank CollateUse Pool PoolFrame SetProofs2 SetTransfer SetPool.
+Local Open Scope nat_scope.
 
 Theorem C15_and_is_intersection :
   forall (A : Type) (zero : A) (rank : A -> A -> comparison),
@@ -15,6 +21,20 @@ Theorem C15_and_is_intersection :
            (forall x : A, mem A rank x r <-> mem A rank x a /\ mem A rank x b).
 Proof. exact set_and_spec. Qed.
 
+(* non-vacuity: A = [5;17;31;48], B = [12;29;40;75] under the coarse ranker x/10 (classes {0,1,3,4} and {1,2,4,7});
+   members are compared up to rank-equality (17 ~ 12, 48 ~ 40); the same set passed twice *)
+Example C15_and_is_intersection_example :
+  total_preorder Z coarseZ /\ StrictSorted Z coarseZ ex_set /\ StrictSorted Z coarseZ ex_set_b /\
+  set_and 0%Z coarseZ coarseZ ex_set ex_set_b = Ret [17; 48]%Z /\
+  set_and 0%Z coarseZ coarseZ ex_set ex_set = Ret ex_set /\
+  (exists r : list Z, set_and 0%Z coarseZ coarseZ ex_set ex_set_b = Ret r /\ StrictSorted Z coarseZ r /\
+     (forall x : Z, mem Z coarseZ x r <-> mem Z coarseZ x ex_set /\ mem Z coarseZ x ex_set_b)).
+Proof.
+  split; [exact coarseZ_total_preorder|]. split; [exact (strict_sortedb_ok Z coarseZ ex_set eq_refl)|]. split; [exact (strict_sortedb_ok Z coarseZ ex_set_b eq_refl)|].
+  split; [vm_compute; reflexivity|]. split; [vm_compute; reflexivity|].
+  exact (C15_and_is_intersection Z 0%Z coarseZ coarseZ_total_preorder ex_set ex_set_b (strict_sortedb_ok Z coarseZ ex_set eq_refl) (strict_sortedb_ok Z coarseZ ex_set_b eq_refl)).
+Qed.
+
 Theorem C15_or_is_union :
   forall (A : Type) (zero : A) (rank : A -> A -> comparison),
          total_preorder A rank ->
@@ -27,6 +47,20 @@ Theorem C15_or_is_union :
            (forall x : A, mem A rank x r <-> mem A rank x a \/ mem A rank x b).
 Proof. exact set_or_spec. Qed.
 
+(* non-vacuity: A = [5;17;31;48], B = [12;29;40;75] under the coarse ranker x/10 (classes {0,1,3,4} and {1,2,4,7});
+   members are compared up to rank-equality (17 ~ 12, 48 ~ 40); the same set passed twice *)
+Example C15_or_is_union_example :
+  total_preorder Z coarseZ /\ StrictSorted Z coarseZ ex_set /\ StrictSorted Z coarseZ ex_set_b /\
+  set_or 0%Z coarseZ ex_set ex_set_b = Ret [5; 17; 29; 31; 48; 75]%Z /\
+  set_or 0%Z coarseZ ex_set ex_set = Ret ex_set /\
+  (exists r : list Z, set_or 0%Z coarseZ ex_set ex_set_b = Ret r /\ StrictSorted Z coarseZ r /\
+     (forall x : Z, mem Z coarseZ x r <-> mem Z coarseZ x ex_set \/ mem Z coarseZ x ex_set_b)).
+Proof.
+  split; [exact coarseZ_total_preorder|]. split; [exact (strict_sortedb_ok Z coarseZ ex_set eq_refl)|]. split; [exact (strict_sortedb_ok Z coarseZ ex_set_b eq_refl)|].
+  split; [vm_compute; reflexivity|]. split; [vm_compute; reflexivity|].
+  exact (C15_or_is_union Z 0%Z coarseZ coarseZ_total_preorder ex_set ex_set_b (strict_sortedb_ok Z coarseZ ex_set eq_refl) (strict_sortedb_ok Z coarseZ ex_set_b eq_refl)).
+Qed.
+
 Theorem C15_sans_is_difference :
   forall (A : Type) (zero : A) (rank : A -> A -> comparison),
          total_preorder A rank ->
@@ -38,6 +72,20 @@ Theorem C15_sans_is_difference :
            StrictSorted A rank r /\
            (forall x : A, mem A rank x r <-> mem A rank x a /\ ~ mem A rank x b).
 Proof. exact set_sans_spec. Qed.
+
+(* non-vacuity: A = [5;17;31;48], B = [12;29;40;75] under the coarse ranker x/10 (classes {0,1,3,4} and {1,2,4,7});
+   members are compared up to rank-equality (17 ~ 12, 48 ~ 40); the same set passed twice *)
+Example C15_sans_is_difference_example :
+  total_preorder Z coarseZ /\ StrictSorted Z coarseZ ex_set /\ StrictSorted Z coarseZ ex_set_b /\
+  set_sans 0%Z coarseZ ex_set ex_set_b = Ret [5; 31]%Z /\
+  set_sans 0%Z coarseZ ex_set ex_set = Ret [] /\
+  (exists r : list Z, set_sans 0%Z coarseZ ex_set ex_set_b = Ret r /\ StrictSorted Z coarseZ r /\
+     (forall x : Z, mem Z coarseZ x r <-> mem Z coarseZ x ex_set /\ ~ mem Z coarseZ x ex_set_b)).
+Proof.
+  split; [exact coarseZ_total_preorder|]. split; [exact (strict_sortedb_ok Z coarseZ ex_set eq_refl)|]. split; [exact (strict_sortedb_ok Z coarseZ ex_set_b eq_refl)|].
+  split; [vm_compute; reflexivity|]. split; [vm_compute; reflexivity|].
+  exact (C15_sans_is_difference Z 0%Z coarseZ coarseZ_total_preorder ex_set ex_set_b (strict_sortedb_ok Z coarseZ ex_set eq_refl) (strict_sortedb_ok Z coarseZ ex_set_b eq_refl)).
+Qed.
 
 Theorem C15_xor_is_symmetric_difference :
   forall (A : Type) (zero : A) (rank : A -> A -> comparison),
@@ -53,8 +101,206 @@ Theorem C15_xor_is_symmetric_difference :
             mem A rank x a /\ ~ mem A rank x b \/ mem A rank x b /\ ~ mem A rank x a).
 Proof. exact set_xor_spec. Qed.
 
+(* non-vacuity: A = [5;17;31;48], B = [12;29;40;75] under the coarse ranker x/10 (classes {0,1,3,4} and {1,2,4,7});
+   members are compared up to rank-equality (17 ~ 12, 48 ~ 40); the same set passed twice *)
+Example C15_xor_is_symmetric_difference_example :
+  total_preorder Z coarseZ /\ StrictSorted Z coarseZ ex_set /\ StrictSorted Z coarseZ ex_set_b /\
+  set_xor 0%Z coarseZ coarseZ ex_set ex_set_b = Ret [5; 29; 31; 75]%Z /\
+  set_xor 0%Z coarseZ coarseZ ex_set ex_set = Ret [] /\
+  (exists r : list Z, set_xor 0%Z coarseZ coarseZ ex_set ex_set_b = Ret r /\ StrictSorted Z coarseZ r /\
+     (forall x : Z, mem Z coarseZ x r <-> mem Z coarseZ x ex_set /\ ~ mem Z coarseZ x ex_set_b \/ mem Z coarseZ x ex_set_b /\ ~ mem Z coarseZ x ex_set)).
+Proof.
+  split; [exact coarseZ_total_preorder|]. split; [exact (strict_sortedb_ok Z coarseZ ex_set eq_refl)|]. split; [exact (strict_sortedb_ok Z coarseZ ex_set_b eq_refl)|].
+  split; [vm_compute; reflexivity|]. split; [vm_compute; reflexivity|].
+  exact (C15_xor_is_symmetric_difference Z 0%Z coarseZ coarseZ_total_preorder ex_set ex_set_b (strict_sortedb_ok Z coarseZ ex_set eq_refl) (strict_sortedb_ok Z coarseZ ex_set_b eq_refl)).
+Qed.
+
+Theorem C15_default_collator_and_is_intersection :
+  forall (M : nat) (zero : U M),
+         forall a b : list (U M),
+         StrictSorted (U M) (rkU M) a ->
+         StrictSorted (U M) (rkU M) b ->
+         exists r : list (U M),
+           set_and zero (rkU M) (rkU M) a b = Ret r /\
+           StrictSorted (U M) (rkU M) r /\
+           (forall x : (U M), mem (U M) (rkU M) x r <-> mem (U M) (rkU M) x a /\ mem (U M) (rkU M) x b).
+Proof. exact dc_and. Qed.
+
+Theorem C15_default_collator_or_is_union :
+  forall (M : nat) (zero : U M),
+         forall a b : list (U M),
+         StrictSorted (U M) (rkU M) a ->
+         StrictSorted (U M) (rkU M) b ->
+         exists r : list (U M),
+           set_or zero (rkU M) a b = Ret r /\
+           StrictSorted (U M) (rkU M) r /\
+           (forall x : (U M), mem (U M) (rkU M) x r <-> mem (U M) (rkU M) x a \/ mem (U M) (rkU M) x b).
+Proof. exact dc_or. Qed.
+
+Theorem C15_default_collator_sans_is_difference :
+  forall (M : nat) (zero : U M),
+         forall a b : list (U M),
+         StrictSorted (U M) (rkU M) a ->
+         StrictSorted (U M) (rkU M) b ->
+         exists r : list (U M),
+           set_sans zero (rkU M) a b = Ret r /\
+           StrictSorted (U M) (rkU M) r /\
+           (forall x : (U M), mem (U M) (rkU M) x r <-> mem (U M) (rkU M) x a /\ ~ mem (U M) (rkU M) x b).
+Proof. exact dc_sans. Qed.
+
+Theorem C15_default_collator_xor_is_symmetric_difference :
+  forall (M : nat) (zero : U M),
+         forall a b : list (U M),
+         StrictSorted (U M) (rkU M) a ->
+         StrictSorted (U M) (rkU M) b ->
+         exists r : list (U M),
+           set_xor zero (rkU M) (rkU M) a b = Ret r /\
+           StrictSorted (U M) (rkU M) r /\
+           (forall x : (U M),
+            mem (U M) (rkU M) x r <->
+            mem (U M) (rkU M) x a /\ ~ mem (U M) (rkU M) x b \/ mem (U M) (rkU M) x b /\ ~ mem (U M) (rkU M) x a).
+Proof. exact dc_xor. Qed.
+
+Theorem C15_raw_default_and :
+  forall zero : val,
+         inUd zero ->
+         forall a b : list val,
+         Forall inUd a ->
+         Forall inUd b ->
+         StrictSorted val rk_default a ->
+         StrictSorted val rk_default b ->
+         exists r : list val,
+           set_and zero rk_default rk_default a b = Ret r /\
+           Forall inUd r /\
+           StrictSorted val rk_default r /\
+           (forall x : val,
+            inUd x -> mem val rk_default x r <-> mem val rk_default x a /\ mem val rk_default x b).
+Proof. exact raw_and. Qed.
+
+Theorem C15_raw_default_or :
+  forall zero : val,
+         inUd zero ->
+         forall a b : list val,
+         Forall inUd a ->
+         Forall inUd b ->
+         StrictSorted val rk_default a ->
+         StrictSorted val rk_default b ->
+         exists r : list val,
+           set_or zero rk_default a b = Ret r /\
+           Forall inUd r /\
+           StrictSorted val rk_default r /\
+           (forall x : val,
+            inUd x -> mem val rk_default x r <-> mem val rk_default x a \/ mem val rk_default x b).
+Proof. exact raw_or. Qed.
+
+Theorem C15_raw_default_sans :
+  forall zero : val,
+         inUd zero ->
+         forall a b : list val,
+         Forall inUd a ->
+         Forall inUd b ->
+         StrictSorted val rk_default a ->
+         StrictSorted val rk_default b ->
+         exists r : list val,
+           set_sans zero rk_default a b = Ret r /\
+           Forall inUd r /\
+           StrictSorted val rk_default r /\
+           (forall x : val,
+            inUd x -> mem val rk_default x r <-> mem val rk_default x a /\ ~ mem val rk_default x b).
+Proof. exact raw_sans. Qed.
+
+Theorem C15_raw_default_xor :
+  forall zero : val,
+         inUd zero ->
+         forall a b : list val,
+         Forall inUd a ->
+         Forall inUd b ->
+         StrictSorted val rk_default a ->
+         StrictSorted val rk_default b ->
+         exists r : list val,
+           set_xor zero rk_default rk_default a b = Ret r /\
+           Forall inUd r /\
+           StrictSorted val rk_default r /\
+           (forall x : val,
+            inUd x ->
+            mem val rk_default x r <->
+            mem val rk_default x a /\ ~ mem val rk_default x b \/
+            mem val rk_default x b /\ ~ mem val rk_default x a).
+Proof. exact raw_xor. Qed.
+
+(* non-vacuity for the default ranking on raw values: Sets of []int values *)
+Example C15_raw_default_example :
+  Forall inUd ex_raw_set /\ Forall inUd ex_raw_set_b /\
+  StrictSorted val rk_default ex_raw_set /\ StrictSorted val rk_default ex_raw_set_b /\
+  set_and VNilSlice rk_default rk_default ex_raw_set ex_raw_set_b = Ret [sl [1; 2]]%Z /\
+  set_or VNilSlice rk_default ex_raw_set ex_raw_set_b = Ret [sl []; sl [1]; sl [1; 2]; sl [2; 0]; sl [3]]%Z /\
+  set_sans VNilSlice rk_default ex_raw_set ex_raw_set_b = Ret [sl [1]; sl [3]]%Z /\
+  set_xor VNilSlice rk_default rk_default ex_raw_set ex_raw_set_b = Ret [sl []; sl [1]; sl [2; 0]; sl [3]]%Z.
+Proof.
+  split; [apply inUd_check; vm_compute; reflexivity|]. split; [apply inUd_check; vm_compute; reflexivity|].
+  split; [apply strict_sortedb_ok; vm_compute; reflexivity|]. split; [apply strict_sortedb_ok; vm_compute; reflexivity|].
+  repeat split; vm_compute; reflexivity.
+Qed.
+
+Theorem C15_pool_results :
+  forall (zero : val) (p : pool) (a b c1 c2 : nat) (x y : list val),
+         get p a = OSet c1 x ->
+         get p b = OSet c2 y ->
+         step zero p (SAnd a b) = new_set p c1 (set_and zero (ranker c1) (ranker c2) x y) /\
+         step zero p (SOr a b) = new_set p c1 (set_or zero (ranker c1) x y) /\
+         step zero p (SSans a b) = new_set p c1 (set_sans zero (ranker c1) x y) /\
+         step zero p (SXor a b) = new_set p c1 (set_xor zero (ranker c1) (ranker c2) x y).
+Proof. exact pool_set_algebra. Qed.
+
+Theorem C15_operands_and_everything_else_unchanged :
+  forall (zero : val) (p : pool) (o : op) (p' : pool) (r : ret),
+         is_set_algebra o = true ->
+         step zero p o = (p', r) -> forall i : nat, i < length p -> nth i p' ODead = nth i p ODead.
+Proof. exact set_algebra_changes_nothing. Qed.
+
+Theorem C15_later_changes_to_an_operand_do_not_reach_the_result :
+  forall (zero : val) (p : pool) (o : op) (p' : pool) (ops : list op) (src : nat),
+         is_set_algebra o = true ->
+         step zero p o = (p', RNew) ->
+         src < length p ->
+         (forall o' : op, In o' ops -> writes o' = Some src \/ writes o' = None) ->
+         nth (length p) (run zero p' ops) ODead = nth (length p) p' ODead.
+Proof. exact set_algebra_result_independent. Qed.
+
+Theorem C15_later_changes_to_the_result_do_not_reach_an_operand :
+  forall (zero : val) (p : pool) (o : op) (p' : pool) (ops : list op) (src : nat),
+         is_set_algebra o = true ->
+         step zero p o = (p', RNew) ->
+         src < length p ->
+         (forall o' : op, In o' ops -> writes o' = Some (length p) \/ writes o' = None) ->
+         nth src (run zero p' ops) ODead = nth src p ODead.
+Proof. exact set_algebra_operand_independent. Qed.
+
+(* non-vacuity at pool level: Sets {1,2,3} and {2,3,5} of Go ints built from slices (slots 2, 3), And/Or/Sans/Xor
+   (slots 4..7), the same Set passed twice (slots 8, 9), then the operand 2 gets 9 added and the result 4 loses 2:
+   the other side is unchanged *)
+Example C15_pool_example :
+  run (si 0) [] ex_alg_ops =
+    [OSlice [si 3; si 1; si 2; si 3]; OSlice [si 2; si 5; si 3];
+     OSet 0 [si 1; si 2; si 3; si 9]; OSet 0 [si 2; si 3; si 5];
+     OSet 0 [si 3]; OSet 0 [si 1; si 2; si 3; si 5]; OSet 0 [si 1]; OSet 0 [si 1; si 5];
+     OSet 0 []; OSet 0 [si 1; si 2; si 3]].
+Proof. vm_compute; reflexivity. Qed.
+
 
 Print Assumptions C15_and_is_intersection.
 Print Assumptions C15_or_is_union.
 Print Assumptions C15_sans_is_difference.
 Print Assumptions C15_xor_is_symmetric_difference.
+Print Assumptions C15_default_collator_and_is_intersection.
+Print Assumptions C15_default_collator_or_is_union.
+Print Assumptions C15_default_collator_sans_is_difference.
+Print Assumptions C15_default_collator_xor_is_symmetric_difference.
+Print Assumptions C15_raw_default_and.
+Print Assumptions C15_raw_default_or.
+Print Assumptions C15_raw_default_sans.
+Print Assumptions C15_raw_default_xor.
+Print Assumptions C15_pool_results.
+Print Assumptions C15_operands_and_everything_else_unchanged.
+Print Assumptions C15_later_changes_to_an_operand_do_not_reach_the_result.
+Print Assumptions C15_later_changes_to_the_result_do_not_reach_an_operand.
